@@ -407,6 +407,8 @@ def make_batches(pix, big, cov, hpx) -> list[dict]:
                 seqs.append(c['hits']); shapes.append([L]); covs.append(c['cov'])
                 if L >= 2 and L % 2 == 0:       # the same hits as a (2, L/2) sampling
                     seqs.append(c['hits']); shapes.append([2, L // 2]); covs.append(c['cov'])
+                if L >= 2:                      # one detector, L samples: fewer rows than distinct pixels
+                    seqs.append(c['hits']); shapes.append([1, L]); covs.append(c['cov'])
             batches.append({'kind': 'cov', 'nside': n, 'seqs': seqs, 'shapes': shapes, 'cov': covs})
     by_n = {}
     for c in hpx:
